@@ -7,11 +7,15 @@ import coqlit as L
 
 ID = "C06"
 COQ_PROPERTY_FILE = "Properties/C06.v"
-COQ_DEPS = ["Common/ListX.v", "Common/ObsHash.v", "Generated/Tables.v", "Model/CellSpace.v", "Proofs/CellSpaceProofs.v", "Proofs/CellSpaceRefine.v"]
+COQ_DEPS = ["Common/ListX.v", "Common/ObsHash.v", "Common/CellState.v", "Generated/Tables.v", "Model/CellSpace.v", "Proofs/CellSpaceProofs.v",
+            "Proofs/CellSpaceRefine.v", "Proofs/CellSpaceBridge.v"]
 COQ_IMPORTS = "From Mesa Require Import Model.CellSpace."
 COQ_CASE_TYPE = "case"
 COQ_RUN = "run_case"
-TABLE_CONSTRUCTS = ["direction_map"]
+TABLE_CONSTRUCTS = ["direction_map", "cell_agents_code", "cell_is_empty_code", "cell_is_full_code", "cell_add_agent_code",
+                    "cell_remove_agent_code", "cell_getters", "cell_setter_code", "fixed_setter_code", "move_to_code",
+                    "move_relative_code", "move2d_code", "cellagent_remove_code", "fixedagent_remove_code", "empties_code",
+                    "try_random_accepts_code", "random_empty_skeleton"]
 ENUM_ALWAYS = False
 RULE = ("history = one cell space (OrthogonalMooreGrid / OrthogonalVonNeumannGrid in 1-4 dimensions, HexGrid, Network, "
         "VoronoiGrid; torus flag; capacity None / 1 / 2 / 3, per cell on Voronoi) + up to 8 agents (CellAgent, FixedAgent, "
